@@ -1699,4 +1699,95 @@ theorem expand_exact_branch_text {A : Answers} {o : Opts} {lines : List Str} {it
       exact render_pin_ne_else _ _ _ _
     · exact strip_render_gen_else ind'
 
+
+/-! ## `desiredProducts` holds every pair once -/
+
+theorem addDesired_nodup {c : CState} (h : c.desired.Nodup) (d : Dep) : (addDesired c d).desired.Nodup := by
+  unfold addDesired
+  split
+  · exact h
+  · rename_i hc
+    simp only [List.nodup_append, List.nodup_cons, List.not_mem_nil, not_false_eq_true, List.nodup_nil, and_self,
+      List.mem_singleton, true_and]
+    refine ⟨h, ?_⟩
+    intro a ha b hb
+    subst hb
+    intro e; subst e
+    exact hc (by simpa using ha)
+
+theorem foldl_addDesired_nodup (l : List Dep) {c : CState} (h : c.desired.Nodup) : (l.foldl addDesired c).desired.Nodup := by
+  induction l generalizing c with
+  | nil => exact h
+  | cons d l ih => exact ih (addDesired_nodup h d)
+
+theorem collectStep_nodup {A : Answers} {o : Opts} {c c' : CState} {p : Prod} (h : collectStep A o c p = .ok c')
+    (hn : c.desired.Nodup) : c'.desired.Nodup := by
+  unfold collectStep at h
+  by_cases h1 : (o.toplevel == some p.name) = true
+  · simp only [h1, if_true, pure, Except.pure] at h; cases h; exact hn
+  · simp only [h1] at h
+    by_cases h2 : p.external = true
+    · simp only [h2, if_true, pure, Except.pure] at h; cases h; exact hn
+    · simp only [h2] at h
+      cases hv : topVersion A p.name with
+      | none =>
+        simp only [hv] at h
+        by_cases h4 : (!p.optional && !o.force) = true
+        · simp [h4, throw, throwThe, MonadExceptOf.throw] at h
+        · simp only [h4, pure, Except.pure] at h; cases h; exact hn
+      | some v =>
+        simp only [hv] at h
+        by_cases h3 : (o.recurse && !p.noRecursion) = true
+        · simp only [h3, if_true] at h
+          cases hd : A.deps p.name v with
+          | unknown => simp [hd, throw, throwThe, MonadExceptOf.throw] at h
+          | raised =>
+            simp only [hd] at h
+            by_cases h4 : (!p.optional && !o.force) = true
+            · simp [h4, throw, throwThe, MonadExceptOf.throw] at h
+            · simp only [h4, pure, Except.pure] at h; cases h; exact hn
+          | ok l => simp only [hd, pure, Except.pure] at h; cases h; exact foldl_addDesired_nodup _ hn
+        · simp only [h3, pure, Except.pure] at h; cases h; exact addDesired_nodup hn _
+
+theorem collect_nodup {A : Answers} {o : Opts} {st : RState} {c : CState} (h : collect A o st = .ok c) : c.desired.Nodup := by
+  unfold collect at h
+  suffices H : ∀ (ps : List Prod) (c0 c : CState), ps.foldlM (collectStep A o) c0 = .ok c → c0.desired.Nodup → c.desired.Nodup from
+    H _ _ _ h (by simp)
+  intro ps
+  induction ps with
+  | nil => intro c0 c h hn; simp [List.foldlM, pure, Except.pure] at h; subst h; exact hn
+  | cons p ps ih =>
+    intro c0 c h hn
+    simp only [List.foldlM_cons, bind, Except.bind] at h
+    cases hs : collectStep A o c0 p with
+    | error e => simp [hs] at h
+    | ok c1 => simp only [hs] at h; exact ih c1 c h (collectStep_nodup hs hn)
+
+theorem nodup_map_of_inj_on {α β : Type} (f : α → β) (l : List α) (hn : l.Nodup)
+    (hinj : ∀ a ∈ l, ∀ b ∈ l, f a = f b → a = b) : (l.map f).Nodup := by
+  induction l with
+  | nil => simp
+  | cons a l ih =>
+    simp only [List.nodup_cons] at hn
+    simp only [List.map_cons, List.nodup_cons, List.mem_map, not_exists, not_and]
+    refine ⟨?_, ih hn.2 (fun x hx y hy => hinj x (by simp [hx]) y (by simp [hy]))⟩
+    intro b hb hfb
+    have := hinj b (by simp [hb]) a (by simp) hfb
+    subst this
+    exact hn.1 hb
+
+/-- when every collected pair is a record, the pinned names are distinct -/
+theorem pinKeys_names_nodup {c : CState} {sv : Str → Option Str} (hn : c.desired.Nodup)
+    (hsv : ∀ q ∈ c.desired, sv q.1 = some q.2) : (c.pinKeys.map (·.2.1)).Nodup := by
+  have : c.pinKeys.map (·.2.1) = c.desired.map (·.1) := by
+    simp [CState.pinKeys, List.map_map, Function.comp_def]
+  rw [this]
+  refine nodup_map_of_inj_on _ _ hn ?_
+  intro a ha b hb hab
+  have h1 := hsv a ha
+  have h2 := hsv b hb
+  rw [hab] at h1
+  rw [h1] at h2
+  exact Prod.ext hab (Option.some.inj h2)
+
 end EupsModel.Expand
